@@ -76,7 +76,7 @@ func (vc *VC) useSpec(sf *SpecFunc) {
 		if body.Sort == "Nil" {
 			body = vc.ss.zeroOfSort(rs, nil)
 		}
-		if sp.recur[sf.Name] {
+		if sp.recur[sf.Name] || (len(params) > 0 && vc.w.patSpecs()[sf.Name] && hasQuant(sf.Body)) {
 			sp.decls = append(sp.decls, fmt.Sprintf("(declare-fun %s (%s) %s)", name, strings.Join(sorts, " "), rs))
 			ap := app(name, args...)
 			sp.defs = append(sp.defs, fmt.Sprintf("(assert (forall (%s) (! (= %s %s) :pattern (%s))))", strings.Join(params, " "), ap, body.S, ap))
